@@ -16,6 +16,8 @@ stdout (last line): {"import_ok", "results": [...], "introspection": [...]}"""
 import ast, asyncio, importlib, inspect, json, os, sys, traceback, typing
 from gv.impl import drivelib as D
 import grpc
+import time as _time
+_real_sleep = _time.sleep
 
 
 def patch_clients(pkg, samples, gs, hs, rest_only):
@@ -186,7 +188,20 @@ def main():
                 buf = io.StringIO()
                 with contextlib.redirect_stdout(buf):
                     if inspect.iscoroutinefunction(fn):
-                        asyncio.run(asyncio.wait_for(fn(), 30))
+                        loop = asyncio.new_event_loop()
+                        asyncio.set_event_loop(loop)
+                        try:
+                            loop.run_until_complete(asyncio.wait_for(fn(), 30))
+                            # RPC machinery the sample started but did not wait for (its call is still in flight)
+                            pend = [t for t in asyncio.all_tasks(loop) if not t.done()]
+                            rec["pending_tasks"] = sorted(getattr(t.get_coro(), "__qualname__", repr(t.get_coro()))[:100] for t in pend)
+                        finally:
+                            for t in asyncio.all_tasks(loop):
+                                t.cancel()
+                            loop.run_until_complete(asyncio.sleep(0))
+                            loop.run_until_complete(loop.shutdown_asyncgens())
+                            asyncio.set_event_loop(None)
+                            loop.close()
                     else:
                         fn()
                 rec["stdout"] = buf.getvalue()[-400:]
@@ -194,6 +209,7 @@ def main():
             rec["ok"] = False
             rec["error"] = D.exc_info(e)
             rec["traceback"] = traceback.format_exc()[-1500:]
+        _real_sleep(0.05)        # let a call that the sample started but did not wait for reach the server
         rec["grpc_calls"] = gs.take_calls()
         rec["http_calls"] = hs.take_calls()
         out["results"].append(rec)
